@@ -135,3 +135,42 @@ def r13_3(ctx):
                "every path through the successor builder reaches the en-passant test at %s%s" % (
                    b.where(b.term_loc(first)), "" if not skip else ": NOT so — an early exit skips it, so a legal en-passant capture can be missing from the generated list"))
     ctx.floor("en-passant successor sites", n, 1)
+
+
+def r13_4(ctx):
+    """The successor builder takes its target squares from the per-piece generators only: the list of
+    targets it iterates is filled by get_moves (and the en-passant probe has its own path); nothing else
+    pushes a square onto it - in particular nothing that depends on the generation mode (a "capture-only"
+    list extended by a quiet promotion push contains a move that is not a capture)."""
+    from wa.mir import operand_alias
+    f = ctx.facts
+    fn = "move_generation::generate_moves_for_piece"
+    b = f.body(fn)
+    ctx.note_fn(fn)
+    lists = [l for l in range(len(b.locals)) if b.local_ty(l).startswith("std::vec::Vec<board::Point") and l in b.names]
+    # a scratch buffer handed in by the caller is the same list
+    lists += [i for i in range(1, b.arg_count + 1) if b.local_ty(i).startswith("&mut std::vec::Vec<board::Point")]
+    n = 0
+    for L in lists:
+        writers = []
+        fillers = 0
+        for bb, t in b.iter_calls():
+            c = callee_of(t) or ""
+            for i, a in enumerate(t["args"]):
+                al = operand_alias(b, a)
+                if not al or al[0] != L or al[2]:
+                    continue
+                arg_ty = t["arg_tys"][i] if i < len(t.get("arg_tys", [])) else ""
+                if not arg_ty.startswith("&mut "):
+                    continue
+                if c.endswith("move_generation::get_moves"):
+                    fillers += 1
+                    continue
+                if c.endswith("IntoIterator>::into_iter") or c.endswith("::iter") or c.endswith("::clear") or c.endswith("deref") or c.endswith("deref_mut"):
+                    continue
+                writers.append((bb, c))
+        n += 1
+        ctx.ob("generate_moves_for_piece:%s:filled-by-get_moves-only" % b.lname(L), fillers >= 1 and not writers,
+               b.where(b.term_loc(writers[0][0])) if writers else b.file,
+               "the target list is filled by get_moves%s" % ("" if not writers else " and also written by `%s`: the successors are no longer exactly the per-piece generator's targets" % writers[0][1]))
+    ctx.floor("target lists in the successor builder", n, 1)
